@@ -238,7 +238,7 @@ def run(P, tier="quick"):
                     "their own zero S cell / unconnected V cell; every unknown used; e_vector assembly inverts the unity removal",
                     floor=16)
     run_ = Runner(P)
-    big = 4
+    big = 4 if tier == "quick" else 5
     small = 3 if tier == "quick" else 4
     sites_seen = set()
     for tname, (fam, full, percol) in FAMILY.items():
